@@ -90,7 +90,7 @@ func Build(c *Cmd) *proto2.Command {
 	db, rp := DBName(c.DB), RPName(c.RP)
 	switch c.K {
 	case "cdb":
-		v := &proto2.CreateDatabaseCommand{Name: pS(db), ReplicaNum: pU32(1)}
+		v := &proto2.CreateDatabaseCommand{Name: pS(db), ReplicaNum: pU32(1), EnableTagArray: pB(c.B1)}
 		if c.HasRP {
 			v.RetentionPolicy = rpInfo(rp, deref(c.D), deref(c.SGD))
 		}
